@@ -206,4 +206,58 @@ theorem announced_set_is_spec (seq0 : UInt64) (ops : List Spec.PubOp) :
 example : (([.announce 3, .announce 5, .withdraw 3, .withdraw 9] : List Spec.PubOp).foldl Pub.apply (Pub.init 77)).set = [5] := by
   decide
 
+/-- the abstract operation a readvertise command stands for, if it is one -/
+def RvCmd.op (c : RvCmd) : Option Spec.PubOp :=
+  if c.comps = 6 ∧ c.module = "rib" then
+    match c.name with
+    | none => none
+    | some n => if c.verb = "register" then some (.announce n)
+                else if c.verb = "unregister" then some (.withdraw n) else none
+  else none
+
+/-- **C19, the entry point of announcements.**  `readvertiseOnInterest` answers 200 exactly for the
+    well-formed commands, and then has performed exactly the operation the command stands for; every
+    other command is answered 400 and leaves the prefix table (set, log, sequence number, snapshot)
+    untouched. -/
+theorem readvertise_is_the_command (p : Pub) (c : RvCmd) :
+    (p.readvertise c) = (match c.op with | some op => (p.apply op, 200) | none => (p, 400)) := by
+  unfold Pub.readvertise RvCmd.op
+  by_cases h6 : c.comps = 6
+  · by_cases hm : c.module = "rib"
+    · cases hn : c.name with
+      | none => simp [h6, hm]
+      | some n =>
+        by_cases hr : c.verb = "register"
+        · simp [h6, hm, hr, Pub.apply]
+        · by_cases hu : c.verb = "unregister"
+          · simp [h6, hm, hr, hu, Pub.apply]
+          · simp [h6, hm, hr, hu]
+    · simp [h6, hm]
+  · simp [h6]
+
+/-- a history of readvertise commands, well-formed or not, leaves exactly the prefixes announced and not
+    withdrawn since by the well-formed ones -/
+theorem readvertise_history_is_spec (seq0 : UInt64) (cs : List RvCmd) :
+    ∀ n, n ∈ (cs.foldl (fun p c => (p.readvertise c).1) (Pub.init seq0)).set ↔
+         n ∈ specSet (cs.filterMap RvCmd.op) := by
+  have hfold : ∀ (cs : List RvCmd) (p : Pub),
+      cs.foldl (fun p c => (p.readvertise c).1) p = (cs.filterMap RvCmd.op).foldl Pub.apply p := by
+    intro cs
+    induction cs with
+    | nil => intro p; rfl
+    | cons c r ih =>
+      intro p
+      simp only [List.foldl_cons, List.filterMap_cons]
+      rw [readvertise_is_the_command]
+      cases hop : c.op with
+      | none => simpa using ih p
+      | some op => simpa using ih (p.apply op)
+  rw [hfold]
+  exact announced_set_is_spec seq0 _
+
+example : ((([⟨6, "rib", "register", some 3⟩, ⟨5, "rib", "register", some 4⟩, ⟨6, "fib", "register", some 5⟩,
+             ⟨6, "rib", "unregister", none⟩, ⟨6, "rib", "announce", some 6⟩, ⟨6, "rib", "register", some 7⟩,
+             ⟨6, "rib", "unregister", some 3⟩] : List RvCmd).foldl (fun p c => (p.readvertise c).1) (Pub.init 9)).set) = [7] := by
+  decide
+
 end Ndn.C19
